@@ -116,3 +116,6 @@ def run(tier, seed, fold):
         fold.count(k, v)
     for sig, detail, replay in res["violations"]:
         fold.violation(sig, [{"detail": detail, "replay": replay}])
+    if tier == "thorough":
+        # Miri over address parsing / encoding and F4Jumble (small lengths)
+        driver.miri_run("C10", "address", seed, fold, procs=12, ops=150)
